@@ -611,11 +611,17 @@ class RelativeJSONPointer:
         # Array index offset
         if self.index and parts and self._int_like(parts[-1]):
             new_index = int(parts[-1]) + self.index
+            if (
+                new_index < _pointer.min_int_index
+                or new_index > _pointer.max_int_index
+            ):
+                # Possibly more digits than Python is willing to print.
+                raise RelativeJSONPointerIndexError("index offset out of range")
             if new_index < 0:
                 raise RelativeJSONPointerIndexError(
                     f"index offset out of range {new_index}"
                 )
-            parts[-1] = int(parts[-1]) + self.index
+            parts[-1] = new_index
 
         # Pointer or index/property
         if isinstance(self.pointer, JSONPointer):
